@@ -2,6 +2,7 @@ package main
 
 import (
 	"fmt"
+	"github.com/pip-services3-gox/pip-services3-expressions-gox/variants"
 	"strings"
 	"time"
 
@@ -171,6 +172,31 @@ func checkEvalEntryPoints(c *Ctx, m string, expr string, binds []binding, main s
 			note = "EvaluateUsingVariablesAndFunctions with a default function collection gives " + g + ", EvaluateUsingVariables " + main
 			return ""
 		}
+		// (b') the same calculator object again with another function collection: every default function
+		// wrapped (same results, calls counted).  The supplied collection must be the one that is called.
+		calls := 0
+		wrapped := functions.NewFunctionCollection()
+		for _, f := range functions.NewDefaultFunctionCollection().GetAll() {
+			inner := f
+			wrapped.Add(functions.NewDelegatedFunction(inner.Name(), func(params []*variants.Variant, ops variants.IVariantOperations) (*variants.Variant, error) {
+				calls++
+				return inner.Calculate(params, ops)
+			}))
+		}
+		nFn := 0
+		for _, t := range c2.ResultTokens() {
+			if t.Type() == parsers.Function {
+				nFn++
+			}
+		}
+		if g := outcome(c2.EvaluateUsingVariablesAndFunctions(mk(), wrapped)); g != main && !strings.Contains(main, "H") {
+			note = "evaluating the same parsed expression again with an equivalent caller-supplied function collection gives " + g + " instead of " + main
+			return ""
+		}
+		if strings.HasPrefix(main, "ok") && calls != nFn {
+			note = fmt.Sprintf("the expression has %d call(s) but the caller-supplied function collection was called %d time(s) on the second evaluation", nFn, calls)
+			return ""
+		}
 		// (c) the default variables of the calculator (automatic variables on), values set by name;
 		// only when every variable of the expression is bound exactly once (an unbound automatic
 		// variable is Null, not missing)
@@ -245,6 +271,15 @@ func checkTplEntryPoints(c *Ctx, src string, vars map[string]string, main string
 		}
 		if g := res(t1b.EvaluateWithVariables(own())); g != main {
 			note = "with non-empty default variables EvaluateWithVariables(explicit map) gives " + g + ", without defaults " + main
+			return ""
+		}
+		// (a'') ... in particular an explicitly passed EMPTY map means "no variable is defined"
+		t1c := mustache.NewMustacheTemplate()
+		t1c.SetAutoVariables(false)
+		t1c.SetTemplate(src)
+		emptyRef := res(t1c.EvaluateWithVariables(map[string]string{}))
+		if g := res(t1b.EvaluateWithVariables(map[string]string{})); g != emptyRef {
+			note = "with non-empty default variables EvaluateWithVariables(empty map) gives " + g + ", without defaults " + emptyRef
 			return ""
 		}
 		// (b) tokens instead of text
